@@ -239,6 +239,10 @@ func (d *decoder) decode() (Item, error) {
 		if err != nil {
 			return nil, fmt.Errorf("%w (malformed exp value for int)", ErrInvalidValue)
 		}
+		if f.MantExp(nil) > MaxBigIntegerSizeBits+1 {
+			// Can't fit into Integer anyway, don't spend time and memory on it.
+			return nil, fmt.Errorf("%w (integer is too big)", ErrInvalidValue)
+		}
 
 		// Int.SetString() is more efficient, but there are special
 		// cases requiring additional care for C# compatibility, that's
@@ -256,6 +260,9 @@ func (d *decoder) decode() (Item, error) {
 		_, acc := f.Int(num)
 		if acc != big.Exact {
 			return nil, fmt.Errorf("%w (integer)", ErrInvalidValue)
+		}
+		if err = CheckIntegerSize(num); err != nil {
+			return nil, fmt.Errorf("%w (%w)", ErrInvalidValue, err)
 		}
 		return NewBigInteger(num), nil
 	case bool:
